@@ -230,9 +230,39 @@ fn template_laws(cx: &mut Cx, tera: &Tera, pool: &[V], rng: &mut Rng, samples: u
     }
     // unique / sort over random sub-multisets of the pool
     for _ in 0..samples / 8 {
-        let n = rng.below(30);
+        // one in four beyond the small sizes (17..96 elements): fast paths chosen by length must agree with the plain ones
+        let n = if rng.below(4) == 0 { 17 + rng.below(80) } else { rng.below(30) };
         let idx: Vec<usize> = (0..n).map(|_| rng.below(pool.len())).filter(|i| !matches!(pool[*i], V::Undef)).collect();
         let xs: Vec<V> = idx.iter().map(|i| pool[*i].clone()).collect();
+        // membership: `a in xs` exactly when some element equals a (whatever the representation of either)
+        for _ in 0..4 {
+            let a = match rng.below(3) {
+                0 if !xs.is_empty() => match xs[rng.below(xs.len())].int() {
+                    Some(i) => { let e = int_encodings(i); e[rng.below(e.len())].clone() }
+                    None => xs[rng.below(xs.len())].clone(),
+                },
+                _ => pool[rng.below(pool.len())].clone(),
+            };
+            if matches!(a, V::Undef) {
+                continue;
+            }
+            let want = xs.iter().any(|x| model::eq(x, &a));
+            let mut ctx = Context::new();
+            ctx.insert_value("xs", V::Arr(xs.clone()).to_tera());
+            ctx.insert_value("a", a.to_tera());
+            let r = guard(|| tera.render("mem", &ctx));
+            cx.eval();
+            match r {
+                Ok(Ok(out)) => {
+                    cx.cell(format!("mem|{}|{}|{}", a.kind(), if xs.len() > 16 { "big" } else { "small" }, want));
+                    if out != format!("{}|{}", want, !want) {
+                        cx.violation("C15/array-membership-differs-from-equality", format!("`a in xs|a not in xs` rendered {out} for a = {a:?} and xs = {xs:?} ({} elements); some element equals a: {want}", xs.len()), json!({"a": a.tagged(), "xs": V::Arr(xs.clone()).tagged()}));
+                    }
+                }
+                Ok(Err(e)) => cx.violation("C15/array-membership-error", format!("`a in xs` failed for a = {a:?}, xs = {xs:?}: {e}"), json!({"a": a.tagged(), "xs": V::Arr(xs.clone()).tagged()})),
+                Err(p) => cx.violation(&format!("C15/panic/{}", panic_site(&p)), format!("`a in xs` panicked for a = {a:?}: {p}"), json!({"a": a.tagged(), "xs": V::Arr(xs.clone()).tagged()})),
+            }
+        }
         let mut classes: Vec<&V> = Vec::new();
         for x in &xs {
             if !classes.iter().any(|c| model::eq(c, x)) {
@@ -283,9 +313,10 @@ fn int_encodings(i: Int) -> Vec<V> {
 }
 
 fn lookup_case(cx: &mut Cx, tera: &Tera, rng: &mut Rng) {
-    let size = match rng.below(4) {
-        0 => rng.below(3),
-        1 => 4 + rng.below(6), // straddles the linear-scan / hash cutoff (6)
+    let size = match rng.below(16) {
+        0..=3 => rng.below(3),
+        4..=7 => 4 + rng.below(6), // straddles the linear-scan / hash cutoff (6)
+        8 => *rng.pick(&[17usize, 31, 32, 33, 63, 64, 65, 100, 127, 128, 129, 257]), // around power-of-two sizes
         _ => rng.below(17),
     };
     // build the model (association list) and the engine map with the same entries
@@ -294,6 +325,8 @@ fn lookup_case(cx: &mut Cx, tera: &Tera, rng: &mut Rng) {
     let mut borrowed = 0;
     for id in 0..size {
         let k = match rng.below(8) {
+            // big maps need keys that do not collide: sequential integers and strings for half of the entries
+            0..=3 if size > 16 => if rng.bool() { K::I64(id as i64 - 8) } else { K::Str(format!("k{id}")) },
             0..=2 => K::Str(STATIC_KEYS[rng.below(STATIC_KEYS.len())].to_string()),
             3 => K::Str(gen_string(rng)),
             4 => K::Bool(rng.bool()),
@@ -499,6 +532,7 @@ pub fn run(cx: &mut Cx) {
         ("eq", "{{ a == b }}|{{ a != b }}"),
         ("uniq", "{{ xs | unique | length }}"),
         ("sort", "{{ xs | sort | length }}"),
+        ("mem", "{{ a in xs }}|{{ a not in xs }}"),
     ])
     .unwrap();
     let base = base_pool();
